@@ -12,4 +12,6 @@ import FractopoModel.Props.C12
 import FractopoModel.Props.C13
 import FractopoModel.Props.C14
 import FractopoModel.Props.C15
+import FractopoModel.Props.C17
+import FractopoModel.Props.C18
 import FractopoModel.Props.C20
